@@ -5,4 +5,5 @@ cd "$(dirname "$0")/.."
 export CARGO_NET_OFFLINE=true
 (cd lean && lake build Rl rldrv)
 (cd harness && RUSTFLAGS="--cfg kkawakam_rustyline_verif -A warnings" cargo build --offline --quiet)
+(cd harness && RUSTFLAGS="--cfg kkawakam_rustyline_verif -A warnings" cargo build --offline --quiet --features sqlite --target-dir target-sqlite)
 echo setup-ok
